@@ -427,7 +427,7 @@ Section EmitTotal.
   Proof.
     intros H. unfold field_tokens. cbv zeta.
     destruct (tp_tokens_ok (alloc_tokens (s_alloc s)) _ H) as (t & Ht). rewrite Ht. cbn [bind].
-    destruct (fi_boxed f); eauto.
+    destruct (fi_emit_boxed f); eauto.
   Qed.
 
   Lemma struct_field_tokens_total k ph codec :
